@@ -22,6 +22,10 @@ CHECKS['C14'] = dict(tech='exhaustive enumeration of small formats x all operand
              text='Every signed format with total width <= 4 (quick) / <= 6 (thorough) and every operand pair is enumerated for adder, subtractor, sign, comparator and multiplier (mixed operand/result formats); formats up to 32 bits are sampled. Exploration: complete below the bound.',
              note='Trusted: Fraction / Python integers. Comparator judged only when a-b is representable; multiplier only when the result has no more fraction bits than the exact product.',
              ref='DESIGN.md 2/C14')
+CHECKS['C13'] = dict(tech='Hypothesis structured operand generation (exponent gap x mantissa boundary x cancellation) against exact rational (Fraction) oracle with ulp bounds',
+             text='Adder, multiplier, comparator (plain/absolute), int->float and float->int are driven with normal operands whose exponent pair is chosen by gap (every alignment shift, gaps beyond the mantissa), mantissa boundary patterns and opposite-sign close magnitudes; outputs are decoded to exact rationals and compared with the stated bounds (ordering exact, <1 ulp product, <2 ulp of larger operand sum + sign, commutativity, truncation/p_lost/invalid). Exploration (sampled).',
+             note='Trusted: Fraction arithmetic, the harness IEEE-754 decoder. Operands restricted to finite normals; results judged only when the exact result is normal.',
+             ref='DESIGN.md 2/C13')
 NOT_APPLICABLE = {}
 
 def main():
